@@ -303,13 +303,41 @@ func replayOnce(P *Program, r *Result, cand int) (note, suffix string) {
 	fn := vc.fn
 	g := &goBuilder{vc: vc, m: m, pkg: fn.Pkg.Pkg, imports: map[string]string{}, cand: cand}
 	var args []string
+	var instNames []string
+	var instType string
+	fuzzed := false
 	for _, p := range fn.Params {
 		v := vc.vals[p]
 		var expr string
+		if names := P.tableInstances(fn.Pkg.Pkg.Path(), p.Type()); len(names) > 0 && len(instNames) == 0 {
+			// a table type (constructed only in package initialisers): try every real instance
+			instNames, instType = names, g.typeStr(p.Type())
+			args = append(args, "verifInst")
+			info.Inputs = append(info.Inputs, fmt.Sprintf("%s = each of the %d package-level instances of %s", p.Name(), len(names), instType))
+			continue
+		}
+		if cand == -1 && isByteSeq(p.Type()) {
+			// contents the model leaves unconstrained are concretised by a small pattern set
+			fuzzed = true
+			if isString(p.Type()) {
+				expr = fmt.Sprintf("%s(verifFuzz)", g.typeStr(p.Type()))
+			} else {
+				expr = fmt.Sprintf("%s(append([]byte(nil), verifFuzz...)[:len(verifFuzz):len(verifFuzz)])", g.typeStr(p.Type()))
+			}
+			args = append(args, expr)
+			info.Inputs = append(info.Inputs, fmt.Sprintf("%s = byte patterns of length 1..6 (the model leaves the contents unconstrained)", p.Name()))
+			continue
+		}
 		if v.lv != nil || v.tuple != nil {
 			expr = g.fail("parameter %s has no simple model value", p.Name())
 		} else {
 			ms := m.get(v.t)
+			if cand >= 1 {
+				// loop-cut counterexample: the state at the loop head stands in for the input
+				if t := vc.paramPhiTerm(p); t != "" && m.get(t) != nil {
+					ms = m.get(t)
+				}
+			}
 			if ms == nil {
 				// unconstrained by the model: zero value
 				ms = zeroSexp(vc, p.Type())
@@ -344,7 +372,20 @@ func replayOnce(P *Program, r *Result, cand int) (note, suffix string) {
 	sb.WriteString("\tcase bool:\n\t\tfmt.Printf(\"VERIF-RET %s bool %v\\n\", i, x)\n\tcase string:\n\t\tfmt.Printf(\"VERIF-RET %s str %x\\n\", i, x)\n")
 	sb.WriteString("\tcase []byte:\n\t\tif x == nil {\n\t\t\tfmt.Printf(\"VERIF-RET %s bytes nil\\n\", i)\n\t\t} else {\n\t\t\tfmt.Printf(\"VERIF-RET %s bytes %d %d %x\\n\", i, len(x), cap(x), x)\n\t\t}\n")
 	sb.WriteString("\tcase error:\n\t\tfmt.Printf(\"VERIF-RET %s err %q\\n\", i, x.Error())\n\tdefault:\n\t\tfmt.Printf(\"VERIF-RET %s other %T %v\\n\", i, x, x)\n\t}\n}\n\n")
-	sb.WriteString("func TestVerifReplay(t *testing.T) {\n\tdefer func() {\n\t\tif r := recover(); r != nil {\n\t\t\tfmt.Printf(\"VERIF-PANIC: %v\\n\", r)\n\t\t}\n\t}()\n")
+	sb.WriteString("func verifFuzzSet() [][]byte {\n\tvar out [][]byte\n\tfor _, b := range []byte{0xC3, 0xFF, 0xE2, 0xF0, 0x5C, 0x22, 0x80, 0x00} {\n\t\tfor n := 1; n <= 6; n++ {\n\t\t\tx := make([]byte, n)\n\t\t\tfor i := range x {\n\t\t\t\tx[i] = b\n\t\t\t}\n\t\t\tout = append(out, x)\n\t\t\ty := append([]byte(\"ab\"), x...)\n\t\t\tout = append(out, y)\n\t\t}\n\t}\n\treturn out\n}\n\n")
+	sb.WriteString("func TestVerifReplay(t *testing.T) {\n\tverifPanics := 0\n")
+	if fuzzed {
+		sb.WriteString("\tfor _, verifFuzz := range verifFuzzSet() {\n")
+	} else {
+		sb.WriteString("\tfor _, verifFuzz := range [][]byte{nil} {\n")
+	}
+	if len(instNames) > 0 {
+		fmt.Fprintf(&sb, "\tnames := []string{\"%s\"}\n\tfor k, verifAny := range []interface{}{%s} {\n\t\tverifInst, ok := verifAny.(%s)\n\t\tif !ok {\n\t\t\tcontinue\n\t\t}\n\t\tverifCtx := \"instance \" + names[k]\n",
+			strings.Join(instNames, "\", \""), strings.Join(instNames, ", "), instType)
+	} else {
+		sb.WriteString("\tfor range []int{0} {\n\t\tverifCtx := \"\"\n")
+	}
+	sb.WriteString("\t\tfunc() {\n\tdefer func() {\n\t\tif r := recover(); r != nil {\n\t\t\tverifPanics++\n\t\t\tif verifPanics <= 3 {\n\t\t\t\tfmt.Printf(\"VERIF-PANIC: %s input=%x: %v\\n\", verifCtx, verifFuzz, r)\n\t\t\t}\n\t\t}\n\t}()\n")
 	if nres == 0 {
 		fmt.Fprintf(&sb, "\t%s\n", call)
 	} else {
@@ -366,6 +407,7 @@ func replayOnce(P *Program, r *Result, cand int) (note, suffix string) {
 			}
 		}
 	}
+	sb.WriteString("\t\t}()\n\t}\n\t}\n")
 	sb.WriteString("\tfmt.Println(\"VERIF-DONE\")\n}\n")
 	info.TestSrc = sb.String()
 	out, cmd, err := runReplayTest(P, fn.Pkg.Pkg.Path(), sb.String())
@@ -388,7 +430,7 @@ func replayOnce(P *Program, r *Result, cand int) (note, suffix string) {
 		info.Verdict = "the real function panics on the solver's input (obligation class " + r.Class + ")"
 		return info.Verdict, ""
 	}
-	if r.Class != "ensures" || r.ev == nil || r.ev.RetVals == nil {
+	if r.Class != "ensures" || r.ev == nil || r.ev.RetVals == nil || len(instNames) > 0 {
 		info.Verdict = "ran without panic; obligation class " + r.Class + " is not observable from the outputs"
 		return info.Verdict, "no-failing-input-found"
 	}
@@ -440,10 +482,19 @@ func runReplayTest(P *Program, pkgPath, src string) (string, string, error) {
 		return "", "", err
 	}
 	defer os.RemoveAll(dir)
+	return runTestIn(dir, pkgPath, map[string]string{"zz_verif_replay_test.go": src}, "^TestVerifReplay$")
+}
+
+// runTestIn injects test files into a package of /repo through `go test -overlay` (nothing is
+// written into /repo) and runs the selected test.
+func runTestIn(dir, pkgPath string, files map[string]string, run string) (string, string, error) {
 	rel := strings.TrimPrefix(strings.TrimPrefix(pkgPath, modPath), "/")
-	testFile := filepath.Join(dir, "zz_verif_replay_test.go")
-	os.WriteFile(testFile, []byte(src), 0644)
-	repl := map[string]string{filepath.Join(repoDir, rel, "zz_verif_replay_test.go"): testFile}
+	repl := map[string]string{}
+	for name, src := range files {
+		f := filepath.Join(dir, name)
+		os.WriteFile(f, []byte(src), 0644)
+		repl[filepath.Join(repoDir, rel, name)] = f
+	}
 	srid := filepath.Join(repoDir, "sql/types/spatial_reference_systems.go")
 	if st, err := os.Stat(srid); err == nil && st.Size() == 0 {
 		repl[srid] = filepath.Join(verifDir, "stubs/spatial_reference_systems.go")
@@ -455,14 +506,14 @@ func runReplayTest(P *Program, pkgPath, src string) (string, string, error) {
 	if rel == "" {
 		target = "."
 	}
-	args := []string{"test", "-overlay", ovFile, "-vet=off", "-count=1", "-timeout", "60s", "-run", "^TestVerifReplay$", "-v", target}
+	args := []string{"test", "-overlay", ovFile, "-vet=off", "-count=1", "-timeout", "120s", "-run", run, "-v", target}
 	cmd := exec.Command("go", args...)
 	cmd.Dir = repoDir
 	cmd.Env = append(os.Environ(), "GOFLAGS=-mod=mod", "GOPROXY=off")
 	var buf bytes.Buffer
 	cmd.Stdout = &buf
 	cmd.Stderr = &buf
-	err = cmd.Run()
+	err := cmd.Run()
 	return buf.String(), "cd " + repoDir + " && go " + strings.Join(args, " "), err
 }
 
